@@ -43,7 +43,9 @@
 (*     is PWake, which touches nothing the store touches;                                      *)
 (*   - the is_clean.load guarding update() together with fetch_add (Call): the client is the      *)
 (*     only writer of the atomics;                                                            *)
-(*   - recv + try_recv drain in one step (PWake): a message sent later stays in the channel.       *)
+(*   - recv + try_recv drain in one step (PWake): a message sent later stays in the channel;       *)
+(*   - persist_map (tmp write, fsync, rename, directory fsync) in one step: within a store it runs      *)
+(*     under the write lock, across stores see invariant SingleWriter.                                *)
 (*                                                                                     *)
 (* Contract.  `want[t]` is the state the last returned call established (WalrusAPI: `clean`,   *)
 (* set by AppendOk/Mark, kept by Restart, observed by IsClean; cleanKnown is TRUE throughout     *)
@@ -323,6 +325,10 @@ FileAfterDrop == (~live) => RepOf(file) = want
 GenNotAhead == live => \A t \in DOMAIN file : t \in DOMAIN st[cur] /\ file[t].g <= st[cur][t].g
 (* a closed store is never written: its map is what its final flush left *)
 ClosedMeansGone == \A k \in Insts : closed[k] => ~LiveK(k)
+(* at most one store can still write the file (every store but the live instance's is closed): this is   *)
+(* what makes persist_map - write <file>.tmp, fsync, rename, the SAME tmp name for every store, each      *)
+(* store under its OWN lock - one atomic step here; without `closed` two stores could interleave inside it *)
+SingleWriter == \A k \in 1 .. cur : LiveK(k) \/ closed[k]
 
 TypeOK ==
   /\ cur \in Insts /\ live \in BOOLEAN /\ ncalls \in 0 .. MaxCalls
